@@ -44,7 +44,8 @@ def gen_exhaustive(kmax):
         npos = len(adv) + 1
         for k in range(kmax + 1):
             for poss in itertools.combinations_with_replacement(range(npos), k):
-                for cmds in itertools.product(CMDS, repeat=k):
+                # `u` = spurious wake-up of the condition wait (kept out of the largest bound)
+                for cmds in itertools.product(CMDS + ["u"] if k <= 2 else CMDS, repeat=k):
                     toks = list(pre)
                     j = 0
                     for p in range(npos):
@@ -54,6 +55,30 @@ def gen_exhaustive(kmax):
                         if p < len(adv):
                             toks.append(adv[p])
                     out.append((toks, "exh:%s:k%d" % (name, k)))
+    return out
+
+
+def gen_split_reboot():
+    """reboot() split between its two stores (needs schedule point 6): the thread advances, a reset or a
+    spurious wake-up arrives, while the controller holds the mutex with reset_ set and run_ not yet cleared"""
+    out = []
+    for name in BASES:
+        pre, adv = base_tokens(name)
+        n = len(adv)
+        for p in range(n + 1):
+            for q in range(p, min(n, p + 5) + 1):
+                for extra in [None] + [(x, e) for x in range(p, q + 1) for e in ("s", "u")]:
+                    toks = list(pre)
+                    for i in range(n + 1):
+                        if i == p:
+                            toks.append("b1")
+                        if extra and extra[0] == i:
+                            toks.append(extra[1])
+                        if i == q:
+                            toks.append("b2")
+                        if i < n:
+                            toks.append(adv[i])
+                    out.append((toks, "split:%s" % name))
     return out
 
 
@@ -67,7 +92,7 @@ def gen_random(g, n, lo, hi):
         for _ in range(L):
             x = g.r.random()
             if x < pc:
-                toks.append(g.r.choice(["r", "r", "s", "s", "b", "b", "t"] if g.r.random() < 0.8 else CMDS))
+                toks.append(g.r.choice(["r", "r", "s", "s", "b", "b", "t", "u"] if g.r.random() < 0.8 else CMDS))
             else:
                 toks.append("a0" if g.r.random() < p0 else "a1")
         post = g.r.choice([[], [], [], ["r"], ["j"], ["r", "j"], ["b", "s", "j"], ["t", "a1", "r", "a1"]])
@@ -83,6 +108,10 @@ def norm(words):
             w = w[0].lower() + w[1:]
         out.append(w)
     return out
+
+
+def b1_blocked(dwords):
+    return any(w.startswith("b1:") and w.split(":")[2] == "k" for w in dwords)
 
 
 def two_pending(dwords):
@@ -141,6 +170,9 @@ def parse_words(words):
         if w in ("hang", "j:hang"):
             ev.append(("hang",))
             continue
+        if w.endswith(":alive") or w.endswith(":early"):
+            ev.append(("alive",))
+            continue
         if len(f) < 5:
             ev.append(("junk", w))
             continue
@@ -154,7 +186,11 @@ def parse_words(words):
                     ev.append(("S", int(e[1:])))
                 elif e[0] == "E":
                     ev.append(("E", int(e[1:])))
-        if tok in ("j", "jt"):
+                elif e[0] == "X":
+                    ev.append(("foreign", e[1:]))
+                elif e == "A":
+                    ev.append(("late",))
+        if tok in ("j", "jt", "jw"):
             ev.append(("J", int(f[3]), int(f[4])))
         else:
             ev.append(("obs", f[2], int(f[3]), int(f[4])))
@@ -214,6 +250,10 @@ def clauses(ev):
         elif k == "hang":
             if td:
                 bad.append("teardown-wait-hangs")
+        elif k == "alive" or k == "late":
+            bad.append("thread-alive-after-wait-returned")
+        elif k == "foreign":
+            bad.append("callback-on-controller-thread")
         elif k == "ended":
             ended = True
         elif k == "rdone":
@@ -287,6 +327,10 @@ def parse_free(out):
             ev.append(("E", int(w[1:])))
         elif w == "P":
             ev.append(("ended",))
+        elif w == "A":
+            ev.append(("late",))
+        elif w[0] == "X":
+            ev.append(("foreign", w[1:]))
         elif w[0] == "<":
             init_in_window = False
             if w[1] == "r":
@@ -311,7 +355,7 @@ def finalize(ctx, scheds):
     nh = 0
     for idx, ((toks, kind, post), d) in enumerate(zip(scheds, first)):
         dw = d.split()
-        if two_pending(dw):
+        if two_pending(dw) or b1_blocked(dw):
             continue
         if dw and dw[-1] == "j:hang":
             if nh < keep_hang and (kind.startswith("exh") and len(toks) % 3 == 0 or nh < 2):
@@ -319,9 +363,12 @@ def finalize(ctx, scheds):
                 pre.append((toks + ["j"], kind + ":hang"))
             else:
                 # teardown, then the join — with run_condition() true for ever in every other case
-                pre.append((toks + ["t", "jt" if idx % 2 else "j"] + post, kind + ":td"))
+                pre.append((toks + ["t", "jt" if idx % 2 else ("jw" if idx % 4 == 0 else "j")] + post, kind + ":td"))
         elif "t" in toks and idx % 2:
             pre.append((toks + ["jt"] + post, kind + ":jt"))
+        elif idx % 5 == 2:
+            # wait() called while the thread is still held: it must not return before the thread has ended
+            pre.append((toks + ["jw"] + post, kind + ":jw"))
         else:
             pre.append((toks + ["j"] + post, kind))
     second = vlib.run_driver(["life cur " + " ".join(t) for t, _ in pre])
@@ -354,6 +401,15 @@ def run(ctx):
     kmax = ctx.n(2, 3)
     scheds += gen_exhaustive(kmax)
     scheds += gen_random(g, ctx.n(1200, 6000), 20, 120)
+    # boot() that cannot create its thread: commands and wait() on a filter without filtering thread
+    for k in range(3):
+        for cmds in itertools.product(CMDS, repeat=k):
+            scheds.append((["F"] + list(cmds), "bootfail", [list(cmds)[0]] if cmds else []))
+    # schedule point 6 (inside reboot()) is a proposed hook: used when the tree under test has it
+    probe, _ = vlib.run_harness(binary, ["life 5000 b1 b2"])
+    have6 = not probe[0].startswith("b1:nohook")
+    if have6:
+        scheds += gen_split_reboot()
     if ctx.replay:
         rp = json.load(open(ctx.replay))["replay"]
         toks = rp["schedule"].split()
@@ -489,7 +545,7 @@ def run(ctx):
         "traces_validated_against_impl": len(ok_cases),
         "model_vs_impl_disagreements": len(mism), "disagreements_confirmed_on_rerun": len(confirmed), "disagreements_not_reproduced": flaky,
         "property_failures_on_impl": len(prop_bad), "free_run_failures": len(free_bad), "free_run_steps_observed": fsteps,
-        "schedule_kinds": hist_kind,
+        "schedule_kinds": hist_kind, "reboot_split_hook_6_present": have6 if not ctx.replay else None,
         "abstract_states_visited_on_impl": len(states),
         "program_counters_visited_on_impl": pcs,
         "control_edges_visited_on_impl": edges, "control_edges_not_visited": missing_edges,
